@@ -64,17 +64,32 @@ theorem crlfAdj_zero_of_prev {sql : Sql} {p : Nat} (h : isCR sql (p - 1) = false
 theorem crlfAdj_zero_of_cur {sql : Sql} {p : Nat} (h : isLF sql p = false) : crlfAdj sql p = 0 := by
   simp [crlfAdj, h]
 
+theorem advance_ok {sql : Sql} {st st' : St} {i : Nat} (h : advance sql st i = .ok st') :
+    1 ≤ i ∧ st.current + i ≤ sql.size ∧
+    st' = { st with
+      current := st.current + i
+      line := if (decide (st.current ≥ 1) && isBreak sql (st.current - 1)) then st.line + 1 else st.line
+      col := if (decide (st.current ≥ 1) && isBreak sql (st.current - 1)) then i
+             else if (decide (st.current ≥ 1) && isNL sql (st.current - 1) &&
+                       !(decide (st.current ≥ 1) && isBreak sql (st.current - 1))) then st.col else st.col + i
+      skew := st.skew || hasNL sql st.current (i - 1) } := by
+  unfold advance at h
+  simp only at h
+  split at h
+  · cases h
+  · split at h
+    · cases h
+    · injection h with h
+      exact ⟨by omega, by omega, h.symm⟩
+
 /-- the heart of `_advance`: moving the cursor from offset p to p + i (i ≥ 1) with the arithmetic of `_advance` keeps the
     invariant, provided none of the skipped characters sql[p+1 .. p+i-1] is a CR or LF -/
 theorem advance_pinv_aux (sql : Sql) (st st' : St) (i : Nat) (hi : 1 ≤ i)
     (hP : PInv sql st) (hno : hasNL sql st.current (i - 1) = false)
     (h : advance sql st i = .ok st') : PInv sql st' := by
-  unfold advance at h
-  simp only at h
-  split at h
-  · cases h
-  · injection h with h
-    have hreg := hasNL_false hno
+  obtain ⟨_, _, h⟩ := advance_ok h
+  have h := h.symm
+  · have hreg := hasNL_false hno
     rcases hP with ⟨h0, hl, hc⟩ | ⟨h1, hl, hc⟩
     · -- cursor before the first character
       right
@@ -246,13 +261,8 @@ structure InvC (sql : Sql) (st : St) : Prop where
 
 theorem advance_invS_aux (sql : Sql) (st st' : St) (i : Nat) (hS : InvS sql st)
     (h : advance sql st i = .ok st') : InvS sql st' := by
-  unfold advance at h
-  simp only at h
-  split at h
-  · cases h
-  · rename_i hle
-    injection h with h
-    subst h
+  obtain ⟨_, hle, h⟩ := advance_ok h
+  · subst h
     exact ⟨by have := hS.lt; simp only; omega, by simp only; omega, hS.sorted, hS.toks⟩
 
 theorem add_invC_aux (cfg : Cfg) (sql : Sql) (st st' : St) (ty : String) (text : Option (List Char))
